@@ -3,6 +3,7 @@ import math
 
 from vlib.common import Corr, Failure, f2b, import_repo
 from vlib import shotgen as sg
+from vlib import trajcorr
 
 ID = 'C18'
 GENS = ['units', 'consts']
@@ -153,6 +154,8 @@ def correspondence(chk, drv):
             ' '.join(['f' + x if i != 5 else x for i, x in enumerate(sg.enc_config(c._calc._config).split())]) for c in calcs)
         cc.add(f'cfgops {len(ops)} ' + ' '.join(ops), ans)
     tcm.reset_globals()
+    # every solver setting governs the computation: whole trajectories under random overrides (winds included) vs the model, bit for bit
+    trajcorr.corr_fire(chk, drv, pbc, 12 if chk.tier == 'quick' else 600, cfg_default=0.2, label='fire-config')
     # finish: parse_value needs post-processing of the model's answer (prefix text -> float -> raw value through the real constructor)
     for c in (cu, cs_, cc):
         r = c.finish(drv)
@@ -285,6 +288,30 @@ def search(chk, broken):
         a2 = c_def.fire(shot, U.Foot(300), U.Foot(300)).trajectory[-1].height.raw_value
         if not (b > a and a2 == a):
             chk.failures.append(Failure('gravity-setting', 'gravity override not honoured or leaked', {'op': 'gravity', 'heights': [a, b, a2]}))
+        # ... through the AIR (the statement of C18_step_bound: air speed at the start of the step x duration of the step <= max step):
+        # a lobbed projectile that slows below the speed of a head or tail wind - the wind is then faster than the ground speed
+        ms2 = rng.choice([0.5, 1.0, 2.0])
+        w = pbc.Wind(U.MPH(rng.uniform(15, 35)), U.Degree(rng.choice([0.0, 180.0])))
+        cfg2 = {'cMinimumVelocity': 0.0, 'cMaximumDrop': -5.0, 'max_calc_step_size_feet': ms2}
+        lob = pbc.Shot(pbc.Weapon(2, 0), pbc.Ammo(dm, U.FPS(rng.uniform(300, 600))), relative_angle=U.Degree(rng.uniform(80, 88)), winds=[w])
+        try:
+            rows2 = pbc.Calculator(_config=cfg2).fire(lob, U.Foot(3000), U.Foot(3000), False, 1e-9).trajectory
+        except pbc.RangeError as e:
+            rows2 = e.incomplete_trajectory
+        wx = w.vector.x
+        worst = 0.0
+        for a, b in zip(rows2, rows2[1:]):
+            dt = b.time - a.time
+            if dt <= 0 or int(a.flag) != 8 or int(b.flag) != 8:
+                continue
+            sp, ang = a.velocity >> U.FPS, a.angle >> U.Radian
+            air = math.hypot(sp * math.cos(ang) - wx, sp * math.sin(ang))      # (wind along the line of fire, no lateral motion)
+            worst = max(worst, air * dt)
+        evals += 1
+        if worst > ms2 * (1 + 1e-6):
+            chk.failures.append(Failure('air-step-too-long', f'a {lob.relative_angle >> U.Degree:.0f} deg lob into a {w.velocity >> U.MPH:.0f} mph wind with maximum step {ms2} ft: in one integration step '
+                                                             f'air speed x duration = {worst:.4f} ft',
+                                        {'op': 'air-step', 'max_step_ft': ms2, 'observed_ft': worst, 'wind_mph': w.velocity >> U.MPH, 'elevation_deg': lob.relative_angle >> U.Degree}))
         # zero accuracy / iteration cap
         try:
             pbc.Calculator(_config={'cMaxIterations': 1, 'cZeroFindingAccuracy': 1e-9}).set_weapon_zero(
